@@ -121,6 +121,9 @@ type toolSpec struct {
 type baseTool struct {
 	spec *toolSpec
 	env  *aenv
+	// owner: set for tools a caller passes with its own call (tool list call option): they must
+	// only ever run for that caller
+	owner string
 }
 
 // toolOutput: what a tool answers. Some (tool, arguments) pairs are answered with the empty
@@ -158,6 +161,9 @@ func (b *baseTool) run(ctx context.Context, args string, streaming bool) (string
 	e := b.env
 	id := compose.GetToolCallID(ctx)
 	e.calls = append(e.calls, toolCallRec{Tag: tagOf(ctx), Name: b.spec.Name, Args: args, CallID: id, Seq: e.nextSeq()})
+	if b.owner != "" && b.owner != tagOf(ctx) {
+		e.problems = append(e.problems, core.Violation{Class: "C09/foreign-tool-executed", Msg: fmt.Sprintf("the tool %s that caller %s passed with its call was executed for caller %s", b.spec.Name, b.owner, tagOf(ctx))})
+	}
 	e.s.Log(fmt.Sprintf("tool %s %s(%s) id=%s", tagOf(ctx), b.spec.Name, args, id))
 	for i := 0; i < b.spec.Yields; i++ {
 		e.s.Yield("tool:" + b.spec.Name)
@@ -250,10 +256,12 @@ type utilReq struct {
 	B string `json:"b,omitempty"`
 }
 
-func (e *aenv) build(specs []*toolSpec) []tool.BaseTool {
+func (e *aenv) build(specs []*toolSpec) []tool.BaseTool { return e.buildFor(specs, "") }
+
+func (e *aenv) buildFor(specs []*toolSpec, owner string) []tool.BaseTool {
 	var out []tool.BaseTool
 	for _, sp := range specs {
-		b := &baseTool{spec: sp, env: e}
+		b := &baseTool{spec: sp, env: e, owner: owner}
 		switch sp.Kind {
 		case 3:
 			bb := b
